@@ -774,6 +774,12 @@ func (dsc *dataStoreCommand) copy(srcKeyName, destKeyName string, dds *dataStore
 	}
 
 	newSk, destExists := dsc.ds.copyStoreKeyUnlocked(srcKeyName, destKeyName, dds, replace)
+	if newSk != nil {
+		if list := newSk.getList(); list != nil {
+			// a list appeared under the destination name: serve clients blocked on it
+			dds.unblockListUnlocked(destKeyName, list.count)
+		}
+	}
 	if newSk == nil {
 		if destExists {
 			return RESULT_DESTINATION_EXISTS
@@ -806,6 +812,12 @@ func (dsc *dataStoreCommand) move(srcKeyName, destKeyName string, dds *dataStore
 	}
 
 	newSk, destExists := dsc.ds.moveStoreKeyUnlocked(srcKeyName, destKeyName, dds, replace)
+	if newSk != nil {
+		if list := newSk.getList(); list != nil {
+			// a list appeared under the destination name: serve clients blocked on it
+			dds.unblockListUnlocked(destKeyName, list.count)
+		}
+	}
 	if newSk == nil {
 		if destExists {
 			return RESULT_DESTINATION_EXISTS
@@ -3197,6 +3209,8 @@ func (dsc *dataStoreCommand) sort(sourceKeyName, byPattern, destKeyName string, 
 			dsc.rpushUnlocked(destKeyName, list, []byte(str))
 		}
 
+		// serve clients blocked on the destination list
+		dsc.ds.unblockListUnlocked(destKeyName, list.count)
 		output.data = respInt(list.count)
 	} else {
 		output = nativeValueToResp(a)
